@@ -102,8 +102,11 @@ func c10Check(cs []tcue, f int64, spare int, styled bool) string {
 			t = fmt.Sprintf("%s#%d", c.T, k)
 		}
 		it := textItem(time.Duration(c.S), time.Duration(c.E), t)
+		if styled {
+			decorate(it, k)
+		}
 		if styled && k%2 == 1 {
-			it.Style, it.Region, it.InlineStyle = st, rg, &astisub.StyleAttributes{WebVTTAlign: "right"}
+			it.Style, it.Region, it.InlineStyle = st, rg, fullStyle(k)
 			it.Lines[0].VoiceName = "v"
 			it.Comments = []string{"c"}
 		}
